@@ -321,12 +321,19 @@ def DefaultH.fromAttrs (attrs : List Attr) : R (Option DefaultH) := do
     pure (some { value, bounds := Bounds.ofArg a.bound })
   | none => pure none
 
+/-- the attribute carries an argument that is only allowed on fields -/
+def CmpH.fieldOnlyArgs (h : CmpH) : Bool := h.by_.isSome || h.key.isSome || h.reverse || h.ignore
+
 def CmpH.verify (h : CmpH) : Target → R Unit
   | .field => pure ()
-  | _ => if h.by_.isSome || h.key.isSome || h.reverse || h.ignore then bail else pure ()
+  | _ => if h.fieldOnlyArgs then bail else pure ()
 
-def CmpHs.verify (c : CmpHs) (t : Target) : R Unit :=
-  CmpAttr.all.forM fun w => (c.get w).verify t
+def CmpHs.verify (c : CmpHs) (t : Target) : R Unit := do
+  c.ord.verify t
+  c.partialOrd.verify t
+  c.eq.verify t
+  c.partialEq.verify t
+  c.hash.verify t
 
 /-- `HelperAttributes::from_attrs` -/
 def HAttrs.fromAttrs (attrs : List Attr) (target : Target) (k : Kinds) : R HAttrs := do
